@@ -249,8 +249,14 @@ def find_spdx_tag(text: str, pattern: re.Pattern) -> Iterator[str]:
         # To ensure we parse them correctly, if the line ends with the inverse
         # of the comment prefix, we strip that suffix. See #343 for a real
         # world example of a project doing this (LLVM).
+        # A prefix made of letters or digits ('c', 'C', 'dnl', 'REM') is a
+        # comment marker, never a frame; do not eat the value's last letters.
         suffix = prefix[::-1]
-        if suffix and value.endswith(suffix):
+        if (
+            suffix
+            and not any(char.isalnum() for char in suffix)
+            and value.endswith(suffix)
+        ):
             value = value[: -len(suffix)]
 
         yield value.strip()
